@@ -227,9 +227,9 @@ func (p C02) Run(c *sim.Ctx, t *sim.Tape) sim.RunResult {
 
 	kinds := []string{
 		"OpenFile", "FRead", "FReadAt", "FWrite", "FWriteAt", "FWriteString", "FSeek", "FTruncate", "FStat", "FSync", "FChmod", "FChown", "FChdir", "FClose",
-		"FReadDir", "FReaddirnames", "Truncate", "Rename", "Link", "Remove", "WriteFile", "ReadFile", "Open",
+		"FReadDir", "FReaddirnames", "Truncate", "Rename", "Link", "Remove", "WriteFile", "ReadFile", "Open", "RemoveAll",
 	}
-	weights := []int{8, 7, 4, 8, 4, 2, 6, 3, 2, 1, 1, 1, 1, 3, 3, 3, 2, 2, 2, 2, 2, 1, 2}
+	weights := []int{8, 7, 4, 8, 4, 2, 6, 3, 2, 1, 1, 1, 1, 3, 3, 3, 2, 2, 2, 2, 2, 1, 2, 1}
 
 	for q := 0; q < 60 && (q < 10 || t.Chance(950)); q++ {
 		o := fsx.Op{K: kinds[t.Weighted(weights)], H: t.Int(3)}
@@ -269,6 +269,9 @@ func (p C02) Run(c *sim.Ctx, t *sim.Tape) sim.RunResult {
 			o.P, o.Q = file, []string{"/a/h", "/a/k", "/a/d/r"}[t.Int(3)]
 		case "Remove", "ReadFile":
 			o.P = file
+		case "RemoveAll":
+			// the file, or the directory it is in, goes while handles on it are open.
+			o.P = []string{file, "/a/d", "/a"}[t.Int(3)]
 		case "WriteFile":
 			o.P, o.Data, o.Perm = file, fmt.Sprintf("<w%d>", q), 0o644
 		}
